@@ -3,6 +3,7 @@
 package canon
 
 import (
+	"encoding/json"
 	"fmt"
 	"regexp"
 	"sort"
@@ -129,12 +130,19 @@ type Container struct {
 	Res  Resources `json:"res"`
 }
 
+type Override struct {
+	Container string    `json:"container"`
+	Ok        bool      `json:"ok"`
+	Res       Resources `json:"res"`
+}
+
 type Node struct {
-	Name        string  `json:"name"`
-	Labels      []KV    `json:"labels"`
-	Annotations []KV    `json:"annotations"`
-	Taints      []Taint `json:"taints"`
-	ResHash     string  `json:"resHash"`
+	Name        string     `json:"name"`
+	Labels      []KV       `json:"labels"`
+	Annotations []KV       `json:"annotations"`
+	Taints      []Taint    `json:"taints"`
+	ResHash     string     `json:"resHash"`
+	Overrides   []Override `json:"overrides"`
 }
 
 type Template struct {
@@ -405,9 +413,30 @@ func CNode(n *corev1.Node, ns, edsName string) Node {
 	for _, t := range n.Spec.Taints {
 		taints = append(taints, Taint{t.Key, t.Value, string(t.Effect)})
 	}
+	// resource-override annotations for (ns, edsName), parsed here independently of the code under test
+	prefix := fmt.Sprintf(edsv1.ExtendedDaemonSetRessourceNodeAnnotationKey, ns, edsName, "")
+	overrides := []Override{}
+	keys := make([]string, 0, len(n.Annotations))
+	for k := range n.Annotations {
+		keys = append(keys, k)
+	}
+	sort.Strings(keys)
+	for _, k := range keys {
+		if !strings.HasPrefix(k, prefix) {
+			continue
+		}
+		o := Override{Container: strings.TrimPrefix(k, prefix), Res: Resources{Limits: []KV{}, Requests: []KV{}}}
+		var rr corev1.ResourceRequirements
+		if err := json.Unmarshal([]byte(n.Annotations[k]), &rr); err == nil {
+			o.Ok = true
+			o.Res = Resources{resList(rr.Limits), resList(rr.Requests)}
+		}
+		overrides = append(overrides, o)
+	}
 	return Node{
 		Name: n.Name, Labels: SM(n.Labels), Annotations: SM(n.Annotations), Taints: taints,
-		ResHash: comparison.GenerateHashFromEDSResourceNodeAnnotation(ns, edsName, n.Annotations),
+		ResHash:   comparison.GenerateHashFromEDSResourceNodeAnnotation(ns, edsName, n.Annotations),
+		Overrides: overrides,
 	}
 }
 
